@@ -448,7 +448,8 @@ def check_financial_fn(ctx) -> None:
     # both NPV conventions go through the single calculate_npv
     g = ctx.repo.function('geophires_x/Economics.py', 'calculate_npv')
     nc = [c for c in calls_in(g.node) if dotted_name(c.func) == 'npf.npv']
-    ctx.check(len(nc) == 1 and norm(nc[0].args[0]) == g.args[0], 'K5', 'calculate_npv/rate-passed-through', g.where,
+    ctx.require(nc, 'calculate_npv: no npf.npv call found')
+    ctx.check(all(c.args and norm(c.args[0]) == g.args[0] for c in nc), 'K5', 'calculate_npv/rate-passed-through', g.where,          # one call per convention is fine
               'calculate_npv does not hand its rate argument unchanged to npf.npv')
     # add-on siblings: IRR stored in a %-declared output must be scaled
     addon = ctx.repo.method('EconomicsAddOns', 'Calculate')
